@@ -96,32 +96,63 @@ def rule_a1(ctx: Ctx, po: PermOps) -> None:
 
 
 def rule_a2(ctx: Ctx) -> None:
+    """Every case distinction on the rotation count sees the count reduced modulo 4 (`times % 4`, directly or through a
+    local bound to it – the parameter itself or another name)."""
     repo = ctx.repo
     for cname in ("Perm", "MeshPatt"):
         fi = repo.need_method(cname, "rotate")
         p = fi.params[1]
-        norm = None
+        reduced = set()      # names currently holding p % 4
+        raw = {p}            # names holding the unreduced count
+        verdict_done = False
+        n_tests = 0
+
+        def is_mod4(v: ast.AST) -> bool:
+            return isinstance(v, ast.BinOp) and isinstance(v.op, ast.Mod) and isinstance(v.left, ast.Name) and v.left.id in raw and isinstance(v.right, ast.Constant) and v.right.value == 4
+
         for st in fi.body:
-            if isinstance(st, ast.Assign) and isinstance(st.targets[0], ast.Name) and st.targets[0].id == p:
-                norm = st
+            if isinstance(st, (ast.Assign, ast.AnnAssign)) and st.value is not None:
+                tgt = st.targets[0] if isinstance(st, ast.Assign) else st.target
+                uses = {n.id for n in ast.walk(st.value) if isinstance(n, ast.Name)}
+                if isinstance(tgt, ast.Name) and uses & (raw | reduced):
+                    if is_mod4(st.value):
+                        reduced.add(tgt.id)
+                        raw.discard(tgt.id)
+                        ctx.ok("C04-A2", fi.where, f"`{unparse(st)}`: every integer count is reduced to its residue in 0..3 (Python % is non-negative); the four residues are covered (A1/A3 extract one map per residue)", st, fi)
+                        continue
+                    if isinstance(st.value, ast.BinOp) and isinstance(st.value.op, ast.Mod) and uses & raw:
+                        ctx.violation("C04-A2", fi, st, f"rotation count is normalised by `{unparse(st.value)}`; only `{p} % 4` maps every integer (negative included) to the right quarter-turn count")
+                        verdict_done = True
+                        break
+                    if isinstance(st.value, ast.Name) and st.value.id in reduced:
+                        reduced.add(tgt.id)
+                        continue
+                    raise AnalysisError(f"{fi.where}: `{unparse(st)}` derives a value from the rotation count in an unrecognised way")
+            for node in ast.walk(st):
+                if isinstance(node, (ast.If, ast.IfExp, ast.While)):
+                    names = {n.id for n in ast.walk(node.test) if isinstance(n, ast.Name)}
+                    if not names & (raw | reduced):
+                        continue
+                    n_tests += 1
+                    # occurrences of a raw name are fine only inside `raw % 4`
+                    bad = False
+                    mods = [m for m in ast.walk(node.test) if is_mod4(m)]
+                    covered = {id(m.left) for m in mods}
+                    for n in ast.walk(node.test):
+                        if isinstance(n, ast.Name) and n.id in raw and id(n) not in covered:
+                            bad = True
+                    if bad:
+                        ctx.violation("C04-A2", fi, st, f"the rotation count `{p}` is not reduced modulo 4 before the case analysis (`{unparse(node.test)}`): counts outside 0..3 (negative ones included) fall into the wrong case")
+                        verdict_done = True
+                        break
+            if verdict_done:
                 break
-            if isinstance(st, (ast.If, ast.Return, ast.For)):
-                break
-        if norm is None:
-            # branching directly on `times % 4 == k` is also fine, anything else is not
-            tests = [unparse(n.test) for n in walk_no_nested(fi.node) if isinstance(n, ast.If)]
-            if tests and all(f"{p} % 4" in t for t in tests):
-                ctx.ok("C04-A2", fi.where, "branches test `times % 4` directly", fi.node, fi)
-            else:
-                ctx.violation("C04-A2", fi, fi.node, f"the rotation count `{p}` is not reduced modulo 4 before the case analysis: counts outside 0..3 (negative ones included) fall into the wrong case")
+        if verdict_done:
             continue
-        v = norm.value
-        if isinstance(v, ast.BinOp) and isinstance(v.op, ast.Mod) and isinstance(v.left, ast.Name) and v.left.id == p and isinstance(v.right, ast.Constant) and v.right.value == 4:
-            ctx.ok("C04-A2", fi.where, f"`{unparse(norm)}`: every integer count is reduced to its residue in 0..3 (Python % is non-negative); the four residues are covered (A1/A3 extract one map per residue)", norm, fi)
-        elif isinstance(v, ast.BinOp) and isinstance(v.op, ast.Mod):
-            ctx.violation("C04-A2", fi, norm, f"rotation count is normalised by `{unparse(v)}`; only `{p} % 4` maps every integer (negative included) to the right quarter-turn count")
-        else:
-            raise AnalysisError(f"{fi.where}: normalisation `{unparse(norm)}` not recognised")
+        if n_tests == 0:
+            raise AnalysisError(f"{fi.where}: no case analysis on the rotation count found")
+        if not reduced:
+            ctx.ok("C04-A2", fi.where, "branches test `times % 4` directly", fi.node, fi)
 
 
 def rule_a3(ctx: Ctx, po: PermOps, mo: MeshOps) -> None:
@@ -215,9 +246,19 @@ class Orbit:
         class _Continue(Exception):
             pass
 
+        ints: Dict[str, int] = {}
+
         def truth(t: ast.AST) -> bool:
             if isinstance(t, ast.UnaryOp) and isinstance(t.op, ast.Not):
                 return not truth(t.operand)
+            if isinstance(t, ast.Name) and t.id in ints:
+                return bool(ints[t.id])
+            if isinstance(t, ast.Compare) and len(t.ops) == 1 and isinstance(t.left, ast.Name) and t.left.id in ints and isinstance(t.comparators[0], ast.Constant) and isinstance(t.comparators[0].value, int):
+                a, b = ints[t.left.id], t.comparators[0].value
+                op = type(t.ops[0])
+                table = {ast.Eq: a == b, ast.NotEq: a != b, ast.Lt: a < b, ast.LtE: a <= b, ast.Gt: a > b, ast.GtE: a >= b}
+                if op in table:
+                    return table[op]
             if isinstance(t, ast.Compare) and len(t.ops) == 1 and isinstance(t.ops[0], (ast.In, ast.NotIn)) and isinstance(t.comparators[0], ast.Name) and t.comparators[0].id in sets:
                 v = self.val(fi, t.left, env)
                 if isinstance(v, Map2):
@@ -232,7 +273,9 @@ class Orbit:
         def assign(t: ast.AST, v: ast.AST) -> None:
             if not isinstance(t, ast.Name):
                 raise AnalysisError(f"{fi.where}: assignment target {unparse(t)}")
-            if isinstance(v, ast.Set):
+            if isinstance(v, ast.Call) and unparse(v) in ("set()",):
+                sets[t.id] = set()
+            elif isinstance(v, ast.Set):
                 vals = [self.val(fi, e, env) for e in v.elts]
                 sets[t.id] = set(vals)
                 for e in v.elts:
@@ -269,7 +312,9 @@ class Orbit:
                     except ValueError:
                         raise AnalysisError(f"{fi.where}: loop bound is not constant")
                     try:
-                        for _ in range(k):
+                        for _i in range(k):
+                            if isinstance(st.target, ast.Name):
+                                ints[st.target.id] = _i
                             try:
                                 exec_block(st.body)
                             except _Continue:
